@@ -222,7 +222,9 @@ U2xOfR(t, r) ==
   IN SumRange(1, Len(t), LAMBDA k : r[k] * (2 * below2[k] + (t[k] - r[k])))
 
 \* the sorted distinct values of a set of integers
-SortedSeqOfSet(S) == [k \in 1..Cardinality(S) |-> CHOOSE v \in S : Cardinality({w \in S : w < v}) = k - 1]
+SortedSeqOfSet(S) ==
+  LET rank == Eager([v \in S |-> Cardinality({w \in S : w < v})])          \* (tabulated once: quadratic, not cubic)
+  IN Eager([k \in 1..Cardinality(S) |-> CHOOSE v \in S : rank[v] = k - 1])
 CountOf(s, v) == Cardinality({i \in 1..Len(s) : s[i] = v})
 
 \* Two-sided exact p of samples a (first) and b: p = min(1, 2 min(P(U <= u), P(U >= u))) = pn / pd
@@ -242,6 +244,32 @@ UTestP(a, b) ==
        IN [err |-> "", pn |-> Min2(tot, 2 * Min2(le, ge)), pd |-> tot,
            \* the library's value is the exact one unless ties meet unequal sizes (C11)
            pex |-> (~ties) \/ Len(a) = Len(b)]
+
+\* LONG RUNS (more than 20 pooled values: the brute force above is out of TLC's reach, and
+\* beyond the exact limits the p-value is a normal approximation, a real number).  The model
+\* still fixes everything the p-value is a function of - the error case "all equal", the tie
+\* vector of the pooled retained values, 2U of the first sample by the rank definition, and
+\* which method the documentation prescribes: the exact distribution for samples of at most
+\* 50 values each (25 when there are ties), the tie- and continuity-corrected normal
+\* approximation beyond - and the harness evaluates that method independently (counting
+\* dynamic programme / Erfc) on these integers: ora = TRUE.
+UExactLimit == 50
+UTiesExactLimit == 25
+UTestBig(a, b) ==
+  LET pv == SortedSeqOfSet(Range(a) \cup Range(b))
+      K  == Len(pv)
+  IN IF K = 1 THEN [err |-> "eq", pn |-> 0, pd |-> 1, pex |-> TRUE, ora |-> FALSE, u2 |-> 0, tv |-> <<>>, exact |-> FALSE]
+     ELSE
+       LET t   == Eager([k \in 1..K |-> CountOf(a, pv[k]) + CountOf(b, pv[k])])
+           ties == \E k \in 1..K : t[k] > 1
+           lim == IF ties THEN UTiesExactLimit ELSE UExactLimit
+           \* 2U by the definition: pairs (first, second) with the first value larger count 2, tied pairs 1
+           u2 == SumRange(1, Len(a), LAMBDA i : 2 * Cardinality({j \in 1..Len(b) : a[i] > b[j]})
+                                                  + Cardinality({j \in 1..Len(b) : a[i] = b[j]}))
+       IN [err |-> "", pn |-> 0, pd |-> 1, pex |-> FALSE, ora |-> TRUE, u2 |-> u2, tv |-> t,
+           exact |-> Len(a) <= lim /\ Len(b) <= lim]
+UTestSmall(a, b) == UTestP(a, b) @@ [ora |-> FALSE, u2 |-> 0, tv |-> <<>>, exact |-> TRUE]
+UTestAny(a, b) == IF Len(a) + Len(b) <= 20 THEN UTestSmall(a, b) ELSE UTestBig(a, b)
 
 \* Welch t-test: only the error cases are in the model
 AllEqual(s) == \A i \in 1..Len(s) : s[i] = s[1]
@@ -362,7 +390,8 @@ Alpha == IF set.alpha[1] = 0 THEN <<1, 20>> ELSE set.alpha
 RowCmp(old, new, u) ==
   LET a == old.rv
       b == new.rv
-      ut == IF set.test = "u" THEN UTestP(a, b) ELSE [err |-> "", pn |-> 0, pd |-> 1, pex |-> FALSE]
+      ut == IF set.test = "u" THEN UTestAny(a, b)
+            ELSE [err |-> "", pn |-> 0, pd |-> 1, pex |-> FALSE, ora |-> FALSE, u2 |-> 0, tv |-> <<>>, exact |-> FALSE]
       err == CASE set.test = "u" -> ut.err
                [] set.test = "t" -> TTestErr(a, b)
                [] OTHER -> ""
@@ -380,6 +409,8 @@ RowCmp(old, new, u) ==
       x(s) == [err |-> err, none |-> none, sig |-> s, cm |-> cm, speed |-> u = 2]
       yes == RenderDecl(x(TRUE))
   IN [k |-> "cmp", err |-> err, sig |-> sig, pn |-> ut.pn, pd |-> ut.pd, pex |-> ut.pex,
+      \* long runs: the harness evaluates the prescribed method on (tv, n1, u2)
+      ora |-> ut.ora, u2 |-> ut.u2, tv |-> ut.tv, exact |-> ut.exact,
       n1 |-> old.n, n2 |-> new.n, cm |-> cm,
       \* delta = (new mean / old mean - 1) * 100 = 100 * diff / (old.sum * new.n)
       dn |-> 100 * diff, dd |-> old.sum * new.n,
@@ -480,7 +511,10 @@ SkipReason(e) == IF FenceHazard(e) = "interp" THEN "fence" ELSE ""
 -----------------------------------------------------------------------------
 \* THE BUILDER
 
-Plan(fam, lens, nb, un, gr, mm, vs) == [fam |-> fam, lens |-> lens, nb |-> nb, un |-> un, gr |-> gr, mm |-> mm, vs |-> vs, w |-> 1]
+\* ix: 0, or the stride by which the values of a configuration grow with the line number
+\* (value = v + ix * lines so far, v from the value set: with value sets inside 0..ix-1 that
+\* are disjoint between the configurations, no two values of the collection are equal)
+Plan(fam, lens, nb, un, gr, mm, vs) == [fam |-> fam, lens |-> lens, nb |-> nb, un |-> un, gr |-> gr, mm |-> mm, vs |-> vs, w |-> 1, ix |-> 0]
 Setting(t, a, o, g, s) == [test |-> t, alpha |-> a, order |-> o, geo |-> g, split |-> s]
 
 AllTests  == {"u", "t", "none"}
@@ -501,6 +535,8 @@ SettingsOf(fam) ==
                          \cup {Setting("u", <<1, 2>>, "name", FALSE, s) : s \in BOOLEAN}
     [] fam = "sim"   -> {Setting(t, a, o, g, s) : t \in AllTests, a \in AlphaGrid, o \in AllOrders, g \in BOOLEAN, s \in BOOLEAN}
     [] fam = "wide"  -> {Setting(t, <<1, 2>>, o, g, TRUE) : t \in {"u", "none"}, o \in AllOrders \ {"none"}, g \in BOOLEAN}
+    [] fam = "long"  -> {Setting("u", a, "none", g, FALSE) : a \in {<<0, 1>>, <<1, 100>>, <<1, 4>>}, g \in BOOLEAN}
+                        \cup {Setting("t", a, "none", g, FALSE) : a \in {<<0, 1>>, <<1, 4>>}, g \in BOOLEAN}
 
 \* "pair": the values of a configuration are entered in non-decreasing order (one
 \* representative per multiset)
@@ -508,7 +544,8 @@ SortedOnly == plan.fam = "pair"
 \* "small": SplitBy is set exactly when the plan uses label values (no idle labels)
 Couple == plan.fam \in {"small", "smallx", "smally"}
 
-MeasSeqs == UNION {[1..k -> plan.un \X plan.vs[NC]] : k \in 1..plan.mm}
+LineVals == IF plan.ix = 0 THEN plan.vs[NC] ELSE {v + plan.ix * Len(cfgs[NC]) : v \in plan.vs[NC]}
+MeasSeqs == UNION {[1..k -> plan.un \X LineVals] : k \in 1..plan.mm}
 LineU == {[b |-> b, g |-> g, ms |-> ms] : b \in plan.nb, g \in plan.gr, ms \in MeasSeqs}
 
 Init ==
@@ -612,7 +649,13 @@ RowsOK(e) ==
            /\ (set.test = "none") => (r.cmp.sig = "yes" /\ r.cmp.yes.note = "none" /\ r.cmp.yes.delta # "tilde")
            /\ (r.cmp.err # "") => (r.cmp.sig = "no" /\ r.cmp.no.note = "reason" /\ r.cmp.no.delta = "tilde")
            /\ (r.cmp.err = "" /\ set.test # "none") => (r.cmp.no.delta = "tilde" /\ r.cmp.no.note = "pn")
-           /\ (set.test = "u" /\ r.cmp.err = "") => (0 < r.cmp.pn /\ r.cmp.pn <= r.cmp.pd)
+           /\ (set.test = "u" /\ r.cmp.err = "" /\ ~r.cmp.ora) => (0 < r.cmp.pn /\ r.cmp.pn <= r.cmp.pd)
+           \* long runs: the gate is decided on the harness-evaluated p; 2U within its range, the tie
+           \* vector a composition of the pooled size with at least two groups
+           /\ r.cmp.ora => /\ set.test = "u" /\ r.cmp.err = "" /\ r.cmp.sig = "lib"
+                            /\ 0 <= r.cmp.u2 /\ r.cmp.u2 <= 2 * r.cmp.n1 * r.cmp.n2
+                            /\ Len(r.cmp.tv) >= 2 /\ Sum(r.cmp.tv) = r.cmp.n1 + r.cmp.n2
+                            /\ \A q \in 1..Len(r.cmp.tv) : r.cmp.tv[q] >= 1
            /\ (r.cmp.yes.delta = "pct") =>
                 (r.cmp.cm # 0 /\ r.cmp.yes.change = (IF (r.cmp.cm > 0) = (t.u = 2) THEN 1 ELSE -1))
            /\ (~r.cmp.dfree) => (r.cmp.dd > 0 /\ Sgn(r.cmp.dn) = r.cmp.cm)
@@ -725,5 +768,29 @@ SimNarrow ==
      gr \in {{0}, {1, 2}, {0, 1}}, vk \in {1, 2, 3, 4}}
 
 SimPlans == SimWide \cup SimNarrow
+
+\* (5) "long": LONG RUNS of one benchmark in two configurations (-count=12 .. 70, equal and
+\* lopsided, on both sides of the U-test's limits 25 / 50 and of the sizes where counts of
+\* arrangements pass 2^31, 2^53, 2^63), sampled with -simulate.  Value kinds: a few levels with
+\* many ties (counter-like metrics) equal / new above / old above; constant and equal (the
+\* "all equal" note at any length); two different constants; no two values equal (ix > 0)
+\* interleaved / new above / old above; a wide range with occasional ties, equal / shifted.
+LongSizes == {12, 15, 16, 20, 21, 25, 26, 30, 38, 40, 50, 51, 60, 64, 70}
+LongShapes == {<<n, n>> : n \in LongSizes}
+              \cup {<<20, 6>>, <<6, 20>>, <<30, 8>>, <<8, 30>>, <<55, 40>>, <<40, 55>>, <<26, 25>>, <<25, 26>>,
+                    <<51, 50>>, <<50, 51>>, <<70, 10>>, <<10, 70>>, <<19, 14>>, <<17, 17>>, <<18, 18>>}
+LongKinds ==
+  { [ix |-> 0, vs |-> <<10..13, 10..13>>], [ix |-> 0, vs |-> <<10..13, 11..14>>], [ix |-> 0, vs |-> <<11..14, 10..13>>],
+    [ix |-> 0, vs |-> <<{7}, {7}>>],       [ix |-> 0, vs |-> <<{7}, {9}>>],        [ix |-> 0, vs |-> <<{9, 10}, {7}>>],
+    [ix |-> 0, vs |-> <<{12}, {12}>>],     [ix |-> 0, vs |-> <<{0}, {0}>>],
+    [ix |-> 4, vs |-> <<{0, 1}, {2, 3}>>], [ix |-> 4, vs |-> <<{0, 1}, {14, 15}>>], [ix |-> 4, vs |-> <<{14, 15}, {0, 1}>>],
+    [ix |-> 4, vs |-> <<{0, 1}, {6, 7}>>], [ix |-> 4, vs |-> <<{6, 7}, {0, 1}>>],
+    [ix |-> 0, vs |-> <<100..160, 100..160>>], [ix |-> 0, vs |-> <<100..160, 108..168>>], [ix |-> 0, vs |-> <<108..168, 100..160>>] }
+LongPlansOf(S, U) ==
+  {[Plan("long", l, {1}, {u}, {0}, 1, k.vs) EXCEPT !.ix = k.ix] : l \in S, u \in U, k \in LongKinds}
+LongPlans == LongPlansOf(LongShapes, 1..3)
+\* quick tier: fewer shapes (both sides of 25 / 50, the sizes whose arrangement counts pass 2^31 / 2^63, lopsided), two units
+LongShapesQuick == {<<n, n>> : n \in {16, 20, 25, 26, 30, 50, 51, 60, 64, 70}} \cup {<<20, 6>>, <<6, 20>>, <<30, 8>>, <<55, 40>>}
+LongPlansQuick == LongPlansOf(LongShapesQuick, {1, 2})
 
 =============================================================================
